@@ -165,10 +165,12 @@ Record world := mkWorld {
   dropped : list N;   (* keys the program can no longer reach (everything else is reachable) *)
   held : list N;      (* keys held by the runtime while their finaliser runs *)
   armed : list N;     (* keys that currently have a Go finaliser set *)
+  lost : list N;      (* ghost: keys whose owed finaliser call was discarded by an extract-all
+                         (ExtractAllMarkedFinalize drops pendingFinalize; PopContext drops its result) *)
   tr : list obs       (* what happened so far, newest first *)
 }.
 
-Definition world0 : world := mkWorld pool0 [] [] [] [].
+Definition world0 : world := mkWorld pool0 [] [] [] [] [].
 
 Definition mem (k : N) (l : list N) : bool := existsb (N.eqb k) l.
 Definition rm (k : N) (l : list N) : list N := filter (fun x => negb (x =? k)) l.
@@ -199,32 +201,32 @@ Definition wstep (w : world) (e : ev) : option world :=
                       | [(_, false)] => rm k (armed w)
                       | _ => armed w
                       end in
-        Some (mkWorld p' (dropped w) (held w) armed' (Marked k fl :: tr w))
-  | EDrop k => Some (mkWorld p (k :: dropped w) (held w) (armed w) (tr w))
+        Some (mkWorld p' (dropped w) (held w) armed' (rm k (lost w)) (Marked k fl :: tr w))
+  | EDrop k => Some (mkWorld p (k :: dropped w) (held w) (armed w) (lost w) (tr w))
   | EGoGC k =>
       if mem k (dropped w) && negb (mem k (held w)) && mem k (armed w)
-      then Some (mkWorld (goFinalizer p k) (dropped w) (held w) (rm k (armed w)) (tr w))
+      then Some (mkWorld (goFinalizer p k) (dropped w) (held w) (rm k (armed w)) (lost w) (tr w))
       else None
   | EResurrect k =>
-      if mem k (held w) then Some (mkWorld p (rm k (dropped w)) (held w) (armed w) (tr w)) else None
-  | EFinReturn => Some (mkWorld p (dropped w) [] (armed w) (tr w))
+      if mem k (held w) then Some (mkWorld p (rm k (dropped w)) (held w) (armed w) (lost w) (tr w)) else None
+  | EFinReturn => Some (mkWorld p (dropped w) [] (armed w) (lost w) (tr w))
   | ERunPF =>
       if closed p then None else
       let '(p', x) := extPF p in
-      Some (mkWorld p' (dropped w) (oVals x ++ held w) (oVals x ++ armed w) (emit Fin (oVals x) (tr w)))
+      Some (mkWorld p' (dropped w) (oVals x ++ held w) (oVals x ++ armed w) (lost w) (emit Fin (oVals x) (tr w)))
   | ERunPR =>
       if closed p then None else
       let '(p', x) := extPR p in
-      Some (mkWorld p' (dropped w) (held w) (armed w) (emit Rel (oVals x) (tr w)))
+      Some (mkWorld p' (dropped w) (held w) (armed w) (lost w) (emit Rel (oVals x) (tr w)))
   | ECloseF =>
       if closed p then None else
       let '(p', x) := extAF p in
-      Some (mkWorld p' (dropped w) (oVals x ++ held w) (armed w) (emit Fin (oVals x) (tr w)))
+      Some (mkWorld p' (dropped w) (oVals x ++ held w) (armed w) (keys (pendF p) ++ lost w) (emit Fin (oVals x) (tr w)))
   | EPop =>
       if closed p then None else
-      let '(p1, _) := extAF p in
+      let '(p1, f) := extAF p in
       let '(p2, x) := extAR p1 in
-      Some (mkWorld p2 (dropped w) (held w) (armed w) (emit Rel (oVals x) (tr w)))
+      Some (mkWorld p2 (dropped w) (held w) (armed w) (keys (pendF p) ++ oVals f ++ lost w) (emit Rel (oVals x) (tr w)))
   end.
 
 Fixpoint wrun (w : world) (es : list ev) : option world :=
